@@ -113,6 +113,21 @@ func Do(c *sim.Cluster, a Action) error {
 		return c.RequestUnknown(a.B, a.A)
 	case "S":
 		return c.SetSilent(a.A, true)
+	case "Q":
+		// a read through the node's API: the validator set of a round that does not exist yet (last round + B);
+		// reads must not change anything
+		return c.Custom(fmt.Sprintf("Q(%d,+%d)", a.A, a.B), func() error {
+			if a.A >= len(c.Nodes) || c.Nodes[a.A] == nil || c.Nodes[a.A].Down {
+				return fmt.Errorf("not usable")
+			}
+			n := c.Nodes[a.A]
+			for r := n.Store.LastRound() + 1; r <= n.Store.LastRound()+a.B; r++ {
+				n.Node.GetValidatorSet(r)
+			}
+			n.Node.GetAllValidatorSets()
+			n.Node.GetStats()
+			return nil
+		})
 	case "SP":
 		// validator A goes silent; B is a validator whose leave was requested earlier (see LeaveSilent)
 		if why := outsideLeavePremise(c, a.A, a.B); why != "" {
